@@ -12,6 +12,36 @@ from . import c18
 
 PROP = "C04"
 
+CANON_V = """(* GENERATED: the documented reading (independent recursive-descent reader) of sampled sentences is canonical
+   for the classification of Cfg/EbnfDoc.v, is a parse tree of the translated grammar, and is the tree the model builds *)
+From Coq Require Import String List Bool Arith NArith.
+From Verif Require Import Cfg.LR Cfg.LRSafe Cfg.LRComplete Cfg.EbnfDoc Reg.MaxMunch.
+From VerifGen Require Import TableGo.
+Import ListNotations.
+Local Open Scope N_scope.
+Fixpoint ev_eqb (a b : list event) : bool :=
+  match a, b with
+  | [], [] => true
+  | EvTok i :: a', EvTok j :: b' => Nat.eqb i j && ev_eqb a' b'
+  | EvProd p :: a', EvProd q :: b' => (p =? q) && ev_eqb a' b'
+  | _, _ => false
+  end.
+(* (tokens, the dictated tree or None when the documented reading rejects the sequence) *)
+Definition agrees (c : list N * option tree) : bool :=
+  let '(toks, ot) := c in
+  let '(tr, o) := run ebnf_grammar ebnf_table ebnf_eof ebnf_err_state toks EndOfInput (N.to_nat 100000) init in
+  match ot with
+  | Some t => match LRComplete.classify ebnf_rules t with Some _ => true | None => false end
+              && ev_eqb tr (post t) && match o with OAccept => true | _ => false end
+  | None => match o with OAccept => false | _ => true end
+  end.
+Definition cases : list (list N * option tree) := [
+%s
+].
+Definition M := Eval vm_compute in mismatches agrees 0 cases.
+Print M.
+"""
+
 # representatives of the 22 token kinds used for the exhaustive short-sequence sweep
 REDUCED = ["IDENT", "TOKEN", "STRING", "REGEX", "=", ";", "|", "(", ")", "[", "]", "<", ">", "@left", "{{", "}}"]
 
@@ -50,11 +80,15 @@ def check(tier):
         rep.violation("translator", {"theorem": "gen/TableGo.v cannot be regenerated", "detail": str(e)}, no_input=True)
         return rep.finish()
     ok, log = C.coq_make(["theories/Props/C04.vo"])
-    for t in ["ebnf_table_is_lalr", "reference_is_nontrivial", "ebnf_table_safe", "ebnf_parser_sound"]:
+    for t in ["ebnf_table_is_lalr", "reference_is_nontrivial", "ebnf_table_safe", "ebnf_parser_sound",
+              "ebnf_complete_check / ebnf_canon_check (Cfg/EbnfCert.v: certificates recomputed for the regenerated table)",
+              "ebnf_parser_complete", "ebnf_parser_builds_the_canonical_tree", "ebnf_parser_accepts_exactly_the_disambiguated_grammar",
+              "the_disambiguation_leaves_no_choice", "a_canonical_sentence_exists", "forbidden_shapes_are_not_canonical"]:
         rep.obligation("Props/C04.v: " + t, ok)
     rep.cov["print_assumptions"] = "Closed under the global context x%d" % log.count("Closed under the global context") if ok else "n/a"
-    rep.cov["partial"] = ["claim 4 (completeness with the documented disambiguation) is decided per explored token sequence by the Earley "
-                          "oracle and the recursive-descent tree builder, not yet by a Coq theorem (lr_complete)"]
+    rep.cov["partial"] = ["that the tree classification of Cfg/EbnfDoc.v IS the documented reading is validated per explored token sequence against "
+                          "the independent recursive-descent reader and the Earley recogniser of the documented grammar (everything else in "
+                          "claim 4 is a theorem for token sequences of any length)"]
     rep.cov["table_entries_enumerated"] = {"action": len(T.action), "goto": len(T.goto), "states": len(T.states),
                                            "pairs": len(T.states) * (len(T.terms) + 1 + len(T.nts))}
     rep.cov["exhaustive"] = True
@@ -75,6 +109,15 @@ def check(tier):
     for n in range(0, 3):
         for t in itertools.product(list(T.terms), repeat=n):
             seqs.append(list(t))
+    # sentences of the grammar that the greedy reading of handles rejects (a TOKEN after a directive without semicolon), and
+    # their accepted neighbours
+    greedy_seqs = []
+    for d in ["@left", "@right", "@none"]:
+        for h in (["STRING"], ["TOKEN"], ["<", "IDENT", "=", "IDENT", ">"], ["STRING", "TOKEN"]):
+            for semi in ([], [";"]):
+                for nxt in (["TOKEN", "=", "STRING"], ["TOKEN", "=", "REGEX", ";"], ["IDENT", "=", "STRING", ";"]):
+                    seqs.append(["grammar", "IDENT"] + [d] + h + semi + nxt)
+                    greedy_seqs.append(seqs[-1])
     specs = list(L.FIXTURE_SPECS) + [L.gen_spec(rng) for _ in range(80 if tier == "quick" else 1500)]
     valid_streams = []
     for sp in specs:
@@ -129,7 +172,42 @@ def check(tier):
         if got != d[1]:
             tree_bad.append((s, "different tree", {"built": got, "dictated": d[1]}))
     hook.close()
-    rep.cov["evaluations"] = len(seqs) + n_tree
+    # the classification of Cfg/EbnfDoc.v against the independent reader, inside the kernel: the dictated tree of every sampled
+    # sentence is canonical and is what the model builds; sequences the documented reading rejects are rejected by the model
+    ccases = []
+    if ok:
+        pool = [s for s in seqs if len(s) <= 400]
+        rng.shuffle(pool)
+        for s in greedy_seqs + valid_streams[: (120 if tier == "quick" else 1500)] + pool[: (400 if tier == "quick" else 6000)]:
+            if any(k not in T.tidx for k in s):
+                continue
+            d = D.dictated_tree(s, T)
+            ccases.append((s, d[1] if d[0] == "ok" else None))
+        paths, offs = [], []
+        shard = 150
+        for o in range(0, len(ccases), shard):
+            path = os.path.join(C.GEN, "cases_C04_%d.v" % (o // shard))
+            with open(path, "w") as f:
+                f.write(CANON_V % ";\n".join("(%s, %s)" % (C.coq_nat_list([T.tidx[k] for k in s]),
+                                                           "Some (%s)" % c18.tree_term(t) if t is not None else "None") for s, t in ccases[o:o + shard]))
+            paths.append(path)
+            offs.append(o)
+        cbad, cerr = [], None
+        for (okc, out), o in zip(C.coqc_many(paths), offs):
+            m = C.parse_mismatches(out) if okc else None
+            if m is None:
+                cerr = out[-1500:]
+                break
+            cbad.extend(o + x for x in m)
+        rep.obligation("classification vs the independent reader: on %d token sequences (%d sentences) the dictated tree is canonical and is "
+                       "what the model builds; rejected sequences are rejected (kernel-evaluated)"
+                       % (len(ccases), sum(1 for _, t in ccases if t is not None)), cerr is None and not cbad)
+        if cerr is not None:
+            rep.violation("cases", {"theorem": "gen/cases_C04_*.v does not compile", "log": cerr}, no_input=True)
+        for i in cbad[:3]:
+            rep.failure("classification", {"classification"}, {"tokens": ccases[i][0], "dictated_tree": ccases[i][1],
+                        "why": "the documented reading of this sequence and the tree classification of Cfg/EbnfDoc.v (or the model of the driver) disagree"})
+    rep.cov["evaluations"] = len(seqs) + n_tree + len(ccases)
     rep.cov["distinct_nontrivial"] = n_acc
     rep.cov["rule"] = ("every (state, symbol) pair of the tables is covered by the kernel-checked table_iso; supporting test for claim 4: every "
                        "token sequence 'grammar IDENT' + up to %d further tokens over %d representative kinds, every sequence of up to 2 tokens "
